@@ -122,6 +122,7 @@ type c02Op struct {
 
 type c02State struct {
 	disabled bool
+	linkDown bool
 	aDeleted map[string]bool // side -> believes A deleted (for applicability only)
 	cExists  bool
 	newest   map[string]data.Point // "node/type/key" and "edge:parent>node/type" -> newest accepted write
@@ -207,6 +208,34 @@ func c02Ops() []c02Op {
 				return true, err
 			}
 			g.sc.Points("sync1", []data.Point{p}) // what the client manager does with a foreign point for the client's node
+			return true, nil
+		}})
+	}
+	for _, down := range []bool{true, false} {
+		down := down
+		name := "link restored"
+		if down {
+			name = "link lost abruptly (outage)"
+		}
+		ops = append(ops, c02Op{name: name, do: func(g *c02Rig, st *c02State) (bool, error) {
+			if st.linkDown == down || st.disabled {
+				return false, nil
+			}
+			var remote *nats.Conn
+			for _, nc := range g.u.Bus.Conns() {
+				if nc.Opts.NoEcho { // the sync client's connection to the upstream
+					remote = nc
+				}
+			}
+			if remote == nil {
+				return false, nil
+			}
+			st.linkDown = down
+			if down {
+				remote.LinkDown()
+			} else {
+				remote.LinkUp()
+			}
 			return true, nil
 		}})
 	}
@@ -308,10 +337,10 @@ func c02Body(t *testing.T, depth, devBound int) mc.Body {
 					out = mc.Outcome{Violation: "operation " + op.name + " refused: " + err.Error(), Key: "legal-write-refused"}
 					return
 				}
-				if op.tomb && st.disabled && outageTomb == "" {
+				if op.tomb && (st.disabled || st.linkDown) && outageTomb == "" {
 					outageTomb = op.name
 				}
-				if !op.tomb && st.disabled && st.aDeleted["any"] && strings.Contains(op.name, " on A ") && outageDeadWrite == "" {
+				if !op.tomb && (st.disabled || st.linkDown) && st.aDeleted["any"] && strings.Contains(op.name, " on A ") && outageDeadWrite == "" {
 					outageDeadWrite = op.name
 				}
 				if !early {
@@ -321,8 +350,12 @@ func c02Body(t *testing.T, depth, devBound int) mc.Body {
 			}
 			// link up through catch-up synchronisation
 			if st.disabled {
-				_ = g.s.do(func() error { _, e := ops[len(ops)-2].do(g, st); return e }, false)
+				_ = g.s.do(func() error { _, e := ops[len(ops)-4].do(g, st); return e }, false)
 				x.Logf("enable sync (end of history)")
+			}
+			if st.linkDown {
+				_ = g.s.do(func() error { _, e := ops[len(ops)-2].do(g, st); return e }, false)
+				x.Logf("link restored (end of history)")
 			}
 			g.s.choose = false
 			g.s.run(5500 * time.Millisecond)
@@ -372,9 +405,9 @@ func TestC02(t *testing.T) {
 			depth, dev = 4, 1
 		}
 		r.Explore(mc.Config{Name: fmt.Sprintf("histories-d%d-dev%d", depth, dev), Serial: true, SplitDepth: 2, DevBound: dev, StopAfterViolations: 40,
-			Rule: fmt.Sprintf("two real stores linked by the real SyncClient (period 1 s) after an initial catch-up; all histories of %d operations over 15 (point / edge point on a shared node at either side, node creation at either side, delete / undelete at either side, sync disabled = outage / re-enabled, a sync period passes), %d scheduling deviations; then the link is brought up, 5 periods pass, and the device subtrees (deleted nodes included, every point with all fields) must be identical and hold the newest accepted write per identity", depth, dev)},
+			Rule: fmt.Sprintf("two real stores linked by the real SyncClient (period 1 s) after an initial catch-up; all histories of %d operations over 17 (point / edge point on a shared node at either side, node creation at either side, delete / undelete at either side, sync disabled = clean outage / re-enabled, link lost abruptly / restored, a sync period passes), %d scheduling deviations; then the link is brought up, 5 periods pass, and the device subtrees (deleted nodes included, every point with all fields) must be identical and hold the newest accepted write per identity", depth, dev)},
 			c02Body(t, depth, dev))
-		r.Assume("outages are modelled by disabling / re-enabling the sync node (clean disconnect and reconnect); abrupt link loss with in-flight messages is not modelled")
+		r.Assume("outages: the sync node disabled / re-enabled (clean disconnect) and abrupt loss of the sync client's upstream connection (queued deliveries lost, its publishes buffered and flushed on recovery, Disconnected/Reconnected handlers); a restart of the upstream store process is not modelled")
 		r.Assume("root edge points of the device node are not compared (the code excludes them from synchronisation)")
 	})
 }
